@@ -149,6 +149,10 @@ let run_case (suite : string) (r : rd) : unit =
   | "readn" ->
     let n = nat_of_int (rint r) in let d = rstr r in let cs = rlist (fun r -> nat_of_int (rint r)) r in
     (match read_n n d cs with RnOk (blk, _, _) -> pint 0; pstr blk | RnEOF -> pint 1 | RnShort -> pint 2)
+  | "dispatch" ->
+    let name = rstr r in
+    (match reader_for name with Ok _ -> pint 0 | _ -> pint 1);
+    (match writer_for name with Ok _ -> pint 0 | _ -> pint 1)
   | "trimspace" -> pstr (trim_space (rstr r))
   | "atoi" -> poptz (atoi (rstr r))
   | _ -> failwith ("unknown suite " ^ suite)
